@@ -2893,6 +2893,12 @@ func (lv *leafValue) lastUpdateBetween(hLog appendable.Appendable, initialTs, fi
 			skippedUpdates++
 		}
 
+		if skippedUpdates >= lv.hCount {
+			// every value stored in the history log was visited,
+			// a history record may hold more than one value
+			break
+		}
+
 		prevOff, err := r.ReadUint64()
 		if err != nil {
 			return nil, 0, 0, err
